@@ -104,7 +104,7 @@ class C04(DocProp):
         if case["kind"] == "text":
             text, feats, tree = case["text"], set(case.get("feats", [])), None
         else:
-            d = gen_doc(case["seed"], case["profile"])
+            d = gen_doc(case["seed"], case["profile"], scale=case.get("scale", 1))
             text, feats, tree = d.text, d.feats, d.tree
         self.feats_hist(col, feats)
         ref = spans(astn.tree(astn.reference_input(text)))
@@ -147,6 +147,17 @@ class C04(DocProp):
                               {"index": df[0], "input_span": repr(df[1])[:300], "output_span": repr(df[2])[:300]})
             if blocks:
                 self.check_code_blocks(blocks, got, sub, col)
+                # info strings, from the generator's tree and the output text alone (flowmark's reader returns the language
+                # word with its backslash escapes already removed, so a comparison of two readings cannot see them go)
+                pos = 0
+                for b in blocks:
+                    if b["t"] == "fence" and b["info"]:
+                        col.mon("codeblock-info")
+                        m = re.compile(r"(?m)^[ >\-*+\d.)]*" + re.escape(b["ch"]) + "{3,}" + re.escape(b["info"]) + "$").search(out, pos)
+                        if not m:
+                            col.violation("codeblock", "C04/codeblock/info-string-not-verbatim", sub, {"info": b["info"], "output": out[:300]})
+                            break
+                        pos = m.end()
         if col.evaluations % 301 == 0:
             col.sample({"seed": case.get("seed"), "profile": case.get("profile"), "spans_head": [list(map(str, x))[:3] for x in ref[:6]]})
 
